@@ -14,13 +14,16 @@ an in-memory socket reaches the callback, the nested API call is made there, and
     next loop iteration.
 """
 import os, re, sys, threading, time, traceback, types, collections
+import select as _real_select
+import socket as _real_socket
 
 import paho.mqtt.client as mqtt
 from vlib import impl, model
 
-RULE = ("full product {callback site (38 conversations: CONNACK; SUBACK; UNSUBACK; inbound PUBLISH QoS0/1/2+PUBREL, "
+RULE = ("full product {callback site (45 conversations: CONNACK; SUBACK; UNSUBACK; inbound PUBLISH QoS0/1/2+PUBREL, "
         "per-topic callback QoS0/2; QoS0 completion, PUBACK, PUBCOMP; EOF, server DISCONNECT, keepalive expiry, "
-        "disconnect() completion; on_socket_open/close/register_write/unregister_write; on_pre_connect; on_log at top "
+        "disconnect() completion, transport failure while a handler writes its reply (PUBREC, PUBACK, PUBCOMP, PUBREL, PINGRESP, "
+        "PINGREQ, retransmission at CONNACK); on_socket_open/close/register_write/unregister_write; on_pre_connect; on_log at top "
         "level and under _in_callback_mutex+_out_message_mutex; on_socket_register_write under both locks; "
         "on_connect_fail; depth 2 (callback -> API -> callback -> measured call) for on_pre_connect, on_log, register/unregister_write, "
         "on_socket_open/close under the outer callback's locks)} x {publish q0, publish q1, subscribe, "
@@ -220,8 +223,13 @@ def fake_select(rlist, wlist, xlist, timeout=None):
         if getattr(s, "closed", False) and isinstance(s, Sock):
             raise ValueError("file descriptor cannot be a negative integer (-1)")
     end = time.monotonic() + (0.0 if not timeout else min(timeout, 0.004))
+    def readable(x):
+        f = getattr(x, "readable", None)
+        if f is not None:
+            return f()
+        return bool(_real_select.select([x], [], [], 0)[0])      # a real socket (wake-up pair of the wakeup oracle)
     while True:
-        rr = [s for s in rlist if s.readable()]
+        rr = [s for s in rlist if readable(s)]
         ww = list(wlist)
         if rr or ww:
             return rr, ww, []
@@ -739,6 +747,45 @@ def sc_disc_in_puback(e):
 
 BOTH = ("_in_callback_mutex", "_out_message_mutex")
 
+
+def _reply_fail(kind):
+    """transport failure while the client writes the reply packet from inside the handler (synchronous write path:
+    _packet_queue -> loop_write -> send() raises): on_disconnect runs with whatever the handler holds"""
+    def f(e):
+        c = e.c
+        if kind == "connack_resend":
+            c.publish("c18/stored", b"s", 1)
+            e.start()
+            trigger = impl.connack(v5=e.v5)
+        else:
+            e.connected()
+            if kind == "pubrec":
+                trigger = impl.publish_pkt(b"c18/in", b"p", qos=2, mid=21, v5=e.v5)
+            elif kind == "puback":
+                trigger = impl.publish_pkt(b"c18/in", b"p", qos=1, mid=22, v5=e.v5)
+            elif kind == "pubcomp":
+                e.deliver(impl.publish_pkt(b"c18/in", b"p", qos=2, mid=23, v5=e.v5))
+                e.step_write()
+                trigger = impl.ack("pubrel", 23)
+            elif kind == "pubrel":
+                mid = c.publish("c18/out", b"x", 2).mid
+                e.step_write()
+                trigger = impl.ack("pubrec", mid)
+            elif kind == "pingresp":
+                trigger = impl.pkt(0xC0)
+            elif kind == "pingreq":
+                trigger = None
+            else:
+                raise ValueError(kind)
+        e.probe.arm("on_disconnect")
+        c._sock.send_plan.append(-1)
+        if trigger is None:
+            impl.CLOCK.advance(61)
+            e.step_misc()
+        else:
+            e.deliver(trigger, done=e.fired)
+    return f
+
 SCENARIOS = collections.OrderedDict([
     # name: (callback, requirement, ends_connection, fn)
     ("connack", ("on_connect", None, False, sc_connect)),
@@ -769,6 +816,14 @@ SCENARIOS = collections.OrderedDict([
     ("regw_outmsg", ("on_socket_register_write", "sock:all,open", False, sc_regw_outmsg)),
     ("unregw_outmsg", ("on_socket_unregister_write", "sock:all,open", False, _locked_at_connack("on_socket_unregister_write", ("_out_message_mutex",)))),
     ("disc_in_puback", ("on_disconnect", "manual+sock:none", True, sc_disc_in_puback)),
+    # transport failure while writing the reply packet from a handler (one conversation per reply kind)
+    ("fail_pubrec", ("on_disconnect", "manual+sock:none", True, _reply_fail("pubrec"))),
+    ("fail_puback", ("on_disconnect", "manual+sock:none", True, _reply_fail("puback"))),
+    ("fail_pubcomp", ("on_disconnect", "manual+sock:none", True, _reply_fail("pubcomp"))),
+    ("fail_pubrel", ("on_disconnect", "manual+sock:none", True, _reply_fail("pubrel"))),
+    ("fail_pingresp", ("on_disconnect", "manual+sock:none", True, _reply_fail("pingresp"))),
+    ("fail_pingreq", ("on_disconnect", "manual+sock:none", True, _reply_fail("pingreq"))),
+    ("fail_connack_resend", ("on_disconnect", "manual+sock:none", True, _reply_fail("connack_resend"))),
     # depth 2: callback -> API call(s) -> callback -> measured API call
     ("pre_connect_nested", ("on_pre_connect", None, True, sc_connect, (["reconnect"], "on_pre_connect", held_is("_in_callback_mutex")))),
     ("log_in_cb", ("on_log", None, False, sc_connect, (["publish"], "on_log", held_is("_in_callback_mutex")))),
@@ -1045,12 +1100,117 @@ def judge(results, out):
     return sigs
 
 
-def run(ctx, out):
+def wakeup_pipe_oracle(out, protos, n=100000):
+    """threaded loop, the REAL _socketpair_compat of the module under test with small kernel buffers: on_connect (on the
+    loop thread, the only reader of the pair) makes n QoS 0 publish() calls; each writes one wake-up byte.  The pair must
+    be non-blocking, otherwise publish() blocks for ever once the buffers are full."""
+    for proto in protos:
+        with Patched() as p:
+            real_pair = p.old[1]
+
+            def small_pair():
+                a, b = real_pair()
+                for x in (a, b):
+                    for opt in (_real_socket.SO_SNDBUF, _real_socket.SO_RCVBUF):
+                        try:
+                            x.setsockopt(_real_socket.SOL_SOCKET, opt, 1024)
+                        except OSError:
+                            pass
+                return a, b
+            mqtt._socketpair_compat = small_pair
+            impl.CLOCK.t = 1000.0
+            v5 = proto == 5
+            c = impl.make_client(protocol=mqtt.MQTTv5 if v5 else mqtt.MQTTv311)
+            c.socks = []
+
+            def create():
+                x = Sock()
+                c.socks.append(x)
+                return x
+            c._create_socket = create
+            prog = {"i": 0, "done": False, "err": None}
+
+            def on_connect(*a):
+                try:
+                    for i in range(n):
+                        c.publish("c18/flood", b"", 0)
+                        prog["i"] = i + 1
+                except BaseException as ex:          # released by the cleanup below
+                    prog["err"] = repr(ex)[:100]
+                prog["done"] = True
+            c.on_connect = on_connect
+            out.cases += 1
+            case = {"kind": "wakeup-pipe", "proto": proto, "publishes": n}
+            t0 = time.monotonic()
+            c.connect_async("h", keepalive=60)
+            c.loop_start()
+            end = time.monotonic() + 3
+            while not (c.socks and c.socks[-1].wire) and time.monotonic() < end:
+                time.sleep(0.001)
+            if not c.socks:
+                out.disagreements.append({"case": case, "kind": "callback-not-reached", "why": "no CONNECT"})
+                continue
+            c.socks[-1].feed(impl.connack(v5=v5))
+            last, last_t, stuck = -1, time.monotonic(), False
+            while not prog["done"]:
+                time.sleep(0.05)
+                if prog["i"] != last:
+                    last, last_t = prog["i"], time.monotonic()
+                elif time.monotonic() - last_t > 2.0:
+                    stuck = True
+                    break
+                if time.monotonic() - t0 > 60:
+                    stuck = True
+                    break
+            if stuck:
+                th = c._thread
+                fr = sys._current_frames().get(th.ident) if th is not None else None
+                stack = []
+                while fr is not None:
+                    stack.append(f"{os.path.basename(fr.f_code.co_filename)}:{fr.f_code.co_name}:{fr.f_lineno}")
+                    fr = fr.f_back
+                out.violations.append({"case": case, "signature": "F-C18-wakeup-pipe-blocks",
+                                       "what": f"publish() number {prog['i'] + 1} made inside on_connect on the loop thread did not return within 2 s: "
+                                               f"the wake-up write self._sockpairW.send() blocks (socket pair not non-blocking, loop thread is its only reader)",
+                                       "stack": stack[:8]})
+                out.stat("wakeup-pipe:blocked")
+            else:
+                out.validated += 1
+                out.seen(("wakeup-pipe", proto, n))
+                out.stat("wakeup-pipe:ok")
+                out.stat("wakeup-pipe:publishes", prog["i"])
+            # cleanup (also releases a blocked sender)
+            c._thread_terminate = True
+            for x in (c._sockpairW, c._sockpairR):
+                try:
+                    x.shutdown(_real_socket.SHUT_RDWR)
+                except Exception:
+                    pass
+            _notify()
+            th = c._thread
+            if th is not None:
+                th.join(1.0)
+
+
+def execute(cases, out):
+    results = []
+    with Patched() as p:
+        for c in cases:
+            results.append(run_case(*c))
+        out.stat("uncaught-thread-exceptions", len(p.thread_errors))
+        for a in p.thread_errors[:3]:
+            if not isinstance(a.exc_value, SelfDeadlock):
+                out.notes.append("exception in a client thread: " + repr(a.exc_value)[:200])
+    return results
+
+
+def run(ctx, out, first=None):
     cases = enumerate_cases(ctx)
     todo = [c for c in cases if applicable(c[0], c[2], c[3], c[4])]
     out.stat("product", len(cases))
     out.stat("not-applicable", len(cases) - len(todo))
-    if ctx.quick and ctx.scale == 1:
+    full = not (ctx.quick and ctx.scale == 1)
+    if not full:
         # quick tier: the manual variants in full; the threaded variant for every (scenario, api) with the
         # configurations rotated (the thorough tier runs the full product)
         keep = []
@@ -1063,18 +1223,14 @@ def run(ctx, out):
                     keep.append(c)
         out.stat("thread-cases-deferred-to-thorough", len(todo) - len(keep))
         todo = keep
+    if first:
+        firstset = set(first)
+        todo = list(first) + [c for c in todo if c not in firstset]
     t0 = time.time()
-    results = []
-    with Patched() as p:
-        for c in todo:
-            results.append(run_case(*c))
-        out.stat("uncaught-thread-exceptions", len(p.thread_errors))
-        for a in p.thread_errors[:3]:
-            if not isinstance(a.exc_value, SelfDeadlock):
-                out.notes.append("exception in a client thread: " + repr(a.exc_value)[:200])
+    results = execute(todo, out)
+    with Patched():
         # regression: the conversations that self-deadlocked before 8b6a5ee / 5844bc2 must now return
-        reg = regression_cases()
-        for c in reg:
+        for c in regression_cases():
             r = run_case(c["scenario"], c["api"], c["loop"], c["sockcfg"], c["proto"])
             out.cases += 1
             if r["outcome"] == "ok" and r.get("written") is not False:
@@ -1084,6 +1240,7 @@ def run(ctx, out):
                 out.violations.append({"case": c, "signature": signature(r.get("callback", "none"), c["api"], r.get("lock", r["outcome"])).replace("F-C18-", "F-C18-regression-", 1),
                                        "what": f"regression replay (fixed finding F-C18a/b/c) fails again: {r['outcome']} {r.get('lock')} in {r.get('method')}",
                                        "stack": r.get("stack")})
+    wakeup_pipe_oracle(out, PROTOS if full else [4])
     out.stat("run_s", round(time.time() - t0, 1))
     sigs = judge(results, out)
     # the model's stuck sites for the all-installed configuration, for the evidence
@@ -1091,6 +1248,7 @@ def run(ctx, out):
     model_sigs = sorted({signature(s["callback"], s["api"], s["lock"]) for s in sites})
     out.sample({"model_stuck_signatures(all callbacks installed)": model_sigs})
     out.sample({"implementation_signatures": sorted(sigs)})
+
     # report first what the model does not predict: unexpected lock self-deadlocks, then the other oracles
     def rank(v):
         g = v.get("signature", "")
@@ -1107,7 +1265,34 @@ def run(ctx, out):
         out.disagreements.append({"kind": "signatures-not-in-model", "signatures": extra})
     for r in results[:2]:
         out.sample({k: v for k, v in r.items() if not k.startswith("_")})
-    out.exhaustive = not (ctx.quick and ctx.scale == 1)
+    out.exhaustive = full
+
+
+def search(ctx, out, disagreements):
+    """Runs when a proof obligation or the correspondence broke and the first run found no failing input.  The model
+    driver was rebuilt from the regenerated graph: its stuck sites say which (callback, API) pairs to try first."""
+    wanted, blocks = set(), []
+    for cfg in SOCKCFGS:
+        try:
+            for s in decode_sites(model.run_one("lockgraph", 1, [inst_mask(cfg)])):
+                if s["lock"].startswith("wait#"):
+                    blocks.append(s)
+                else:
+                    wanted.add((s["callback"], s["api"]))
+        except Exception as ex:
+            out.notes.append(f"search: model driver unavailable ({ex})")
+    first = []
+    for scn, spec in SCENARIOS.items():
+        for api in APIS:
+            if (spec[0], API_MODEL_NAME.get(api, api)) in wanted:
+                for loop in LOOPS:
+                    for sockcfg in SOCKCFGS:
+                        for proto in PROTOS:
+                            if applicable(scn, loop, sockcfg, proto):
+                                first.append((scn, api, loop, sockcfg, proto))
+    out.notes.append(f"search: regenerated model reports {len(wanted)} stuck (callback, api) pairs and {len(blocks)} blocking sites; "
+                     f"{len(first)} conversations promoted")
+    run(ctx, out, first=first)
 
 
 def regression_cases():
